@@ -32,6 +32,8 @@ def sets_for(tier, seed):
         s.append(("epb-e", K("EPb", 2, 5, lemmas=1), "bfs", None))
         s.append(("epallw", K("EPALLw", 2, 0, lemmas=1), "bfs", None))
         s.append(("epallb", K("EPALLb", 2, 0, lemmas=1), "bfs", None))
+        s.append(("ep2w-%d" % (seed % 6 + 1), K("EP2w", 1, seed % 6 + 1), "bfs", None))
+        s.append(("ep2b-%d" % ((seed + 2) % 6 + 1), K("EP2b", 1, (seed + 2) % 6 + 1), "bfs", None))
         s.append(("epxw-d", K("EPXw", 1, 4), "bfs", None))
         s.append(("epxb-e", K("EPXb", 1, 5), "bfs", None))
         s.append(("castle-1", K("CASTLE", 1, 1), "bfs", None))
@@ -43,6 +45,9 @@ def sets_for(tier, seed):
         s.append(("rand-%d" % seed, K("RAND", 999, 8), "sim", {"num": 100, "depth": 22, "seed": seed}))
         s.append(("sim-%d" % seed, K("ROOTS", 999, 0), "sim", {"num": 24, "depth": 100, "seed": seed}))
         s.append(("lemma2-roots-d1", K("ROOTS", 1, 0, lemmas=2, emit=False), "bfs", None))
+        s.append(("lemma2-epxw-d", K("EPXw", 1, 4, lemmas=2, emit=False), "bfs", None))
+        s.append(("lemma2-pinw-c", K("PINw", 0, 3, lemmas=2, emit=False), "bfs", None))
+        s.append(("lemma2-castle-1", K("CASTLE", 0, 1, lemmas=2, emit=False), "bfs", None))
     else:
         for fam in ("KQK", "KRK", "KBK", "KNK"):
             s.append((fam.lower(), K(fam, 999, 0, lemmas=1), "bfs", None))
@@ -52,6 +57,8 @@ def sets_for(tier, seed):
         s.append(("epb", K("EPb", 3, 0, lemmas=1), "bfs", None))
         s.append(("epallw", K("EPALLw", 3, 0, lemmas=1), "bfs", None))
         s.append(("epallb", K("EPALLb", 3, 0, lemmas=1), "bfs", None))
+        s.append(("ep2w", K("EP2w", 1, 0, lemmas=1), "bfs", None))
+        s.append(("ep2b", K("EP2b", 1, 0, lemmas=1), "bfs", None))
         s.append(("epxw", K("EPXw", 1, 0), "bfs", None))
         s.append(("epxb", K("EPXb", 1, 0), "bfs", None))
         s.append(("castle", K("CASTLE", 2, 0), "bfs", None))
@@ -65,6 +72,10 @@ def sets_for(tier, seed):
         s.append(("lemma2-roots-d2", K("ROOTS", 2, 0, lemmas=2, emit=False), "bfs", None))
         s.append(("lemma2-castle", K("CASTLE", 1, 1, lemmas=2, emit=False), "bfs", None))
         s.append(("lemma2-epw", K("EPw", 2, 4, lemmas=2, emit=False), "bfs", None))
+        s.append(("lemma2-epxw", K("EPXw", 1, 0, lemmas=2, emit=False), "bfs", None))
+        s.append(("lemma2-epxb", K("EPXb", 1, 0, lemmas=2, emit=False), "bfs", None))
+        s.append(("lemma2-pinw", K("PINw", 0, 0, lemmas=2, emit=False), "bfs", None))
+        s.append(("lemma2-kpk7b", K("KPK7b", 1, 0, lemmas=2, emit=False), "bfs", None))
     return s
 
 
